@@ -35,6 +35,16 @@ theorem rt_tag {m : M α} {e : Bytes} {a : α} (t : String) (h : RT m e a) : RT 
   obtain ⟨s1, hm, hb⟩ := h rest s hs
   exact ⟨s1, by simp only [tag_def, hm], hb⟩
 
+/-- `tracked m` then `slice_ref`: on an encoding the re-slicing is legal. -/
+theorem rt_sliced {m : M α} {e : Bytes} {a : α} (h : RT m e a) :
+    RT (tracked m >>= fun sm => sliceRef sm.2 >>= fun _ => (pure sm.1 : M α)) e a := by
+  intro rest s hs
+  obtain ⟨s1, hm, hb⟩ := h rest s hs
+  refine ⟨s1, ?_, hb⟩
+  have hsuf : s1.buf.isSuffixOf s.buf = true := by
+    rw [List.isSuffixOf_iff_suffix, hb, hs]; exact List.suffix_append _ _
+  simp only [bind_def, tracked, hm, hsuf, sliceRef, if_true, pure_def]
+
 theorem rt_allocReq (n : Nat) : RT (allocReq n) [] () := by
   intro rest s hs; exact ⟨_, rfl, by simpa using hs⟩
 
@@ -655,14 +665,16 @@ theorem rt_metaFor (r : RawRows) (cached : Option ResultMeta) (m : ResultMeta) (
       | some i => simp at hid
     subst this
     simp only [List.nil_append]
-    refine rt_tag _ (rt_bind0 (by simpa using rt_optRead_false (tag "newid" readShortBytes)) ?_)
+    unfold parsedMetaSliced parsedMeta
+    refine rt_sliced (rt_tag _ (rt_bind0 (by simpa using rt_optRead_false (tag "newid" readShortBytes)) ?_))
     exact rt_metaBody g cols none mcc hlen hcols hg
   | withNewId =>
     cases mid with
     | none => simp at hid
     | some i =>
       simp only
-      refine rt_tag _ (rt_bind (by simpa using rt_optRead (rt_tag "newid" (rt_readShortBytes i (hil i rfl)))) ?_)
+      unfold parsedMetaSliced parsedMeta
+      refine rt_sliced (rt_tag _ (rt_bind (by simpa using rt_optRead (rt_tag "newid" (rt_readShortBytes i (hil i rfl)))) ?_))
       exact rt_metaBody g cols (some i) mcc hlen hcols hg
 
 /-! ### raw rows -/
